@@ -45,6 +45,7 @@ def run(ctx):
     ctx.run_rule("R4-lookup-shape", r4_lookup, F)
     ctx.run_rule("R5-who-may", r5_who, F)
     ctx.run_rule("R6-number-layout", r6_layout, F)
+    ctx.run_rule("R7-identity-lookup", r7_identity, F)
     ctx.assumptions += ["number stability against the host and fd-based liveness after unlink are not examined"]
 
 
@@ -56,6 +57,34 @@ def forget_blocks(b, v, ino_expr):
             if vf.strip_upd(a[2]) == vf.strip_upd(ino_expr):
                 out.add(c.bb)
     return out
+
+
+def r7_identity(ctx, F):
+    """Which cached inode answers for a looked-up file: the one with the same file handle if there is a handle; otherwise the one
+    with the same (ino, dev, mnt) id - but, when the lookup has a handle, only an entry that has none (an entry with a
+    different handle is a different file that reused the inode number)."""
+    rule = "R7-identity-lookup"
+    want = {
+        "passthrough::<passthrough::InodeMap>::get_alt_locked": "Option::cloned(Option::or_else(Option::and_then(handle, closure({closure#0})), closure({closure#1})))",
+        "passthrough::<passthrough::InodeMap>::get_alt_locked::{closure#0}": "InodeStore::get_by_handle(^inodes, h)",
+        "passthrough::<passthrough::InodeMap>::get_alt_locked::{closure#1}": "Option::filter(InodeStore::get_by_id(^inodes, ^id), closure({closure#0}))",
+        "passthrough::<passthrough::InodeMap>::get_alt_locked::{closure#1}::{closure#0}":
+            "phi{!Option::is_none(^handle) => Option::is_none(InodeHandle::file_handle(data.handle)) | Option::is_none(^handle) => 1}",
+    }
+    for k, w in want.items():
+        b = F.fns.get(k)
+        if b is None:
+            raise core.Anchor(k)
+        ctx.fn_seen(b)
+        v = vf.VF(b, inline_depth=0)
+        r = vf.render(v.ret(), b, short=True, vfx=v)
+        alt = w.replace("phi{!Option::is_none(^handle) => Option::is_none(InodeHandle::file_handle(data.handle)) | Option::is_none(^handle) => 1}",
+                        "BitOr(Option::is_none(^handle), Option::is_none(InodeHandle::file_handle(data.handle)))")
+        ctx.check(rule, k.split("InodeMap>::", 1)[1], r in (w, alt), "%s computes `%s`; required `%s`" % (k.split("InodeMap>::", 1)[1], r[:200], w), loc=b.loc(), detail=r[:120])
+    b = F.method("passthrough::InodeMap", "get_alt")
+    v = vf.VF(b, inline_depth=0)
+    r = vf.render(v.ret(), b, short=True, vfx=v)
+    ctx.check(rule, "get_alt", r == "InodeMap::get_alt_locked(Result::unwrap(RwLock::read(self.inodes)), id, handle)", "InodeMap::get_alt computes `%s`" % r[:200], loc=b.loc())
 
 
 def r1_entry_pairing(ctx, F):
